@@ -56,7 +56,21 @@ func c18Cond(r *core.Rand, quals []string) string {
 func c18Statement(r *core.Rand, g *gen.StmtGen) (string, string) {
 	t := pick(r, c18Tables)
 	col := func() string { return pick(r, c18Cols) }
-	switch r.Intn(28) {
+	switch r.Intn(30) {
+	case 28, 29:
+		// a statement of another family cut short at a token boundary: the
+		// parser accepts some of these (an INSERT without any tuple after
+		// VALUES, a statement without its last clause), and then they reach
+		// the executor
+		q, _ := c18Statement(r, g)
+		f := strings.Fields(q)
+		if len(f) > 1 {
+			f = f[:r.Range(1, len(f)-1)]
+		}
+		if r.Chance(1, 4) {
+			return pick(r, []string{"INSERT INTO t1 VALUES", "INSERT INTO t1 (i) VALUES", "insert into nosuch values", "INSERT INTO t1 (i, s) VALUES", "INSERT INTO z VALUES", "INSERT INTO e VALUES"}), "cut_short"
+		}
+		return strings.Join(f, " "), "cut_short"
 	case 27:
 		// a table without columns (z, 0-3 rows): alone, and on either side of
 		// every kind of join with select lists, grouping and ordering over the
@@ -153,7 +167,7 @@ func c18Statement(r *core.Rand, g *gen.StmtGen) (string, string) {
 }
 
 func checkC18(c *core.Ctx) []core.Floor {
-	c.Rule = "sessions in four states (no USE; after a failed USE; database selected; failed USE after a successful one) executing statements from type-confused families over tables with all four column types, NULLs in every nullable column and an empty table: AVG/COUNT over every type and over NULLs, ORDER BY over NULL-bearing columns, comparisons between every pair of types and with NULL-padded join sides, bare columns/literals as conditions, missing / ambiguous / duplicated columns and aliases, GROUP BY on other columns, LIMIT/OFFSET at the edge of 64 bits, database / table / column names no file system takes (255-5000 characters, path separators, dot names, NUL, empty), INSERT / UPDATE / DELETE addressed to the catalog tables sys_pages and sys_schema (followed by ordinary statements), a table without columns (0-3 rows) alone and on either side of every kind of join, INSERT with wrong arity / unknown / repeated columns / empty VALUES, UPDATE from a column, DDL and database statements, plus random statements from the C10 grammar over the same names. Monitor: recover() around Session.ExecQuery in a child process (a dead child names its statement); wall-clock watchdog only as inconclusive. One case in eleven runs against the REAL 100 ms flush goroutine instead: multi-row INSERT, UPDATE, DELETE, CREATE TABLE and SELECTs (valid and type-confused) on a cold or warm cache, each held open by a sleep of 2-3 timer periods at its first cache miss, its second page change or inside its log append, so that a flush request is pending while the statement goes on; a script that does not finish is run a second time on its own with a 120 s allowance, and only if it stops at the same statement again is that reported as a hang. Distinct = (session state, statement text); non-trivial = the statement parsed (it reached execution)."
+	c.Rule = "sessions in four states (no USE; after a failed USE; database selected; failed USE after a successful one) executing statements from type-confused families over tables with all four column types, NULLs in every nullable column and an empty table: AVG/COUNT over every type and over NULLs, ORDER BY over NULL-bearing columns, comparisons between every pair of types and with NULL-padded join sides, bare columns/literals as conditions, missing / ambiguous / duplicated columns and aliases, GROUP BY on other columns, LIMIT/OFFSET at the edge of 64 bits, database / table / column names no file system takes (255-5000 characters, path separators, dot names, NUL, empty), INSERT / UPDATE / DELETE addressed to the catalog tables sys_pages and sys_schema (followed by ordinary statements), a table without columns (0-3 rows) alone and on either side of every kind of join, statements of every family cut short at a token boundary (those the parser still accepts reach the executor, e.g. INSERT ... VALUES without a tuple), INSERT with wrong arity / unknown / repeated columns / empty VALUES, UPDATE from a column, DDL and database statements, plus random statements from the C10 grammar over the same names. Monitor: recover() around Session.ExecQuery in a child process (a dead child names its statement); wall-clock watchdog only as inconclusive. One case in eleven runs against the REAL 100 ms flush goroutine instead: multi-row INSERT, UPDATE, DELETE, CREATE TABLE and SELECTs (valid and type-confused) on a cold or warm cache, each held open by a sleep of 2-3 timer periods at its first cache miss, its second page change or inside its log append, so that a flush request is pending while the statement goes on; a script that does not finish is run a second time on its own with a 120 s allowance, and only if it stops at the same statement again is that reported as a hang. Distinct = (session state, statement text); non-trivial = the statement parsed (it reached execution)."
 	c.Assume = []string{"any result or error value is acceptable; only panics, process death and hangs are judged"}
 	drv := mustDriver(c, false)
 	n := 600
